@@ -4,6 +4,7 @@
   `cryptography`'s / the verifier's and enter only through the correspondence run.
 -/
 import MitmVerif.Model.C16
+import MitmVerif.Model.C15_Classify
 import MitmVerif.Gen.C16
 namespace MitmVerif.Props.C16
 open MitmVerif MitmVerif.C15 MitmVerif.C16
@@ -235,6 +236,55 @@ theorem sans_in_source_order (classify : Bytes → Option GName) (r : Req) (n : 
   cases hu : upList classify r ++ g :: al with
   | nil => simp at hu
   | cons x xs => simp [dedup]
+
+private theorem classify_ascii_ip_or_dns (s : Bytes) (g : GName) (h : classifyAscii s = some g) :
+    (∃ v, g = .ip v) ∨ (g = .dns s ∧ C22.parseIp s = none) := by
+  unfold classifyAscii at h
+  split at h
+  · simp only [Option.some.injEq] at h; exact Or.inl ⟨_, h.symm⟩
+  · simp only [Option.some.injEq] at h; exact Or.inl ⟨_, h.symm⟩
+  · rename_i hp
+    split at h
+    · simp only [Option.some.injEq] at h; exact Or.inr ⟨h.symm, hp⟩
+    · cases h
+
+/-! ### with `_ip_or_dns_name` transcribed (C15_Classify: C22.parseIp + the idna codec's ASCII fast path) -/
+
+/-- An ASCII host-name SNI (not an IP literal, labels within the codec's bounds) is carried by the leaf VERBATIM as a dNSName — no
+    case folding, no rewriting — and without upstream names it is also the Common Name. -/
+theorem requested_host_kept_verbatim (slow : Bytes → Option GName) (r : Req) (n : Names)
+    (ha : isAscii (requested r) = true) (hip : C22.parseIp (requested r) = none) (hl : idnaAsciiOk (requested r) = true)
+    (h : getNames (classifyT slow) r = some n) :
+    GName.dns (requested r) ∈ n.sans
+    ∧ (upList (classifyT slow) r = [] → n.sans.head? = some (.dns (requested r)) ∧ n.cn = some (requested r)) := by
+  have hc : classifyT slow (requested r) = some (.dns (requested r)) := by
+    simp [classifyT, ha, classifyAscii, hip, hl]
+  obtain ⟨g, hg, hmem, hfirst⟩ := sni_or_local_first_class (classifyT slow) r n h
+  rw [hc] at hg; injection hg with hg; subst hg
+  exact ⟨hmem, fun hu => by simpa [gText] using hfirst hu⟩
+
+/-- An IP-literal SNI (or local address) is carried as iPAddress with exactly the packed address `ipaddress` parses it to. -/
+theorem requested_ip_kept_packed (slow : Bytes → Option GName) (r : Req) (n : Names)
+    (ha : isAscii (requested r) = true) (hip : (C22.parseIp (requested r)).isSome = true)
+    (h : getNames (classifyT slow) r = some n) :
+    ∃ v, classifyAscii (requested r) = some (.ip v) ∧ GName.ip v ∈ n.sans := by
+  obtain ⟨g, hg, hmem, _⟩ := sni_or_local_first_class (classifyT slow) r n h
+  simp only [classifyT, ha, if_true] at hg
+  rcases classify_ascii_ip_or_dns _ _ hg with ⟨v, hv⟩ | ⟨_, hnp⟩
+  · subst hv; exact ⟨v, hg, hmem⟩
+  · rw [hnp] at hip; cases hip
+
+/-- `get_cert` cannot raise for an ASCII SNI (or local address) that is an IP literal or satisfies the codec's label rule, whatever
+    the upstream certificate carries (no server address, or one of the same kind). -/
+theorem get_cert_total_ascii (slow : Bytes → Option GName) (r : Req)
+    (ha : isAscii (requested r) = true) (hok : (classifyAscii (requested r)).isSome = true)
+    (haddr : ∀ a, r.addr = some a → isAscii a = true ∧ (classifyAscii a).isSome = true) :
+    (getNames (classifyT slow) r).isSome = true := by
+  cases hg : classifyAscii (requested r) with
+  | none => rw [hg] at hok; cases hok
+  | some g =>
+    exact upstream_never_blocks (classifyT slow) r g (by simp [classifyT, ha, hg])
+      (fun a hra => by obtain ⟨h1, h2⟩ := haddr a hra; simpa [classifyT, h1] using h2)
 
 /-! ### the field plan of `dummy_cert` -/
 
